@@ -96,6 +96,34 @@ func VerifH_C19_Chain() {
 		}
 	}
 	verifAssert(!errors.Is(err, nil), "C19.is_nil_target")
+	// errors.As reaches a *ConnectionError link wherever it sits in the chain
+	hasCE, hasFieldLink := false, false
+	for i := 0; i < depth; i++ {
+		if kinds[i] == 3 {
+			hasCE = true
+		}
+		if kinds[i] == 4 {
+			hasFieldLink = true // errors.As cannot look through a link without Unwrap; only (*Error).Is does
+		}
+	}
+	if !hasFieldLink {
+		var ce *ConnectionError
+		verifAssert(errors.As(err, &ce) == hasCE, "C19.as_finds_connection_error")
+	}
+	// the outermost library wrapper keeps what it wraps: a retry wrapper yields a retry handle unless it
+	// was handed nil or bare io.EOF
+	if depth > 0 && kinds[depth-1] == 1 {
+		_, isRetry := err.(ErrorWithRetry)
+		innerIsBareEOF := leaf == io.EOF
+		for i := 0; i < depth-1; i++ {
+			if kinds[i] >= 2 {
+				innerIsBareEOF = false // wrapped by a non-library link: no longer the bare sentinel
+			}
+		}
+		if !innerIsBareEOF {
+			verifAssert(isRetry, "C19.retry_wrapper_keeps_handle")
+		}
+	}
 	// (*Error).Is called directly agrees
 	if e, ok := err.(*Error); ok {
 		for ti, target := range sent {
